@@ -331,6 +331,11 @@ func (s *Server) parseSearchScanBaseTokens(
 						err = errInvalidNumberOfArguments
 						return
 					}
+					if len(expr) > maxWhereExprLen {
+						// the evaluator recurses once per nested term
+						err = errInvalidArgument("expression too long")
+						return
+					}
 					t.wheres = append(t.wheres, whereT{name: expr, expr: true})
 					continue
 				} else {
@@ -748,6 +753,9 @@ func (s *Server) parseSearchScanBaseTokens(
 	tout = t
 	return
 }
+
+// maxWhereExprLen bounds a WHERE expression (1 MiB).
+const maxWhereExprLen = 1 << 20
 
 func detectExprToken(vs []string) bool {
 	// Detect the kind of where, either:
